@@ -48,9 +48,9 @@ impl<'a> Reader<&'a [u8]> for SliceReader<'a> {
 
     #[inline]
     fn bytes(&mut self, length: usize) -> Option<&'a [u8]> {
-        let result = self.data.get(..length);
+        let result = self.data.get(..length)?;
         self.data = &self.data[length..];
-        result
+        Some(result)
     }
 
     #[inline]
